@@ -231,7 +231,28 @@ def clause_lits(c):
 
 
 # ====================================================================== generators
-def gen_program(rng, max_atoms):
+TRUE_CHILD_CLASS = "break-cycles-assertion-evidence-true-child"
+
+
+def probe_true_child():
+    """Does _break_cycles short-cut a TRUE child (key 0) in the evidence pass?  (one bit of the
+    model, CyclesModel.bc's `tc`, follows the code: pinned tree = False, with
+    fixes/C09-true-child-in-evidence-pass.patch = True)"""
+    from problog.formula import LogicFormula, LogicDAG
+    from problog.logic import Term
+    lf = LogicFormula()
+    lf.add_atom(("fact", 0), 0.3, name=Term("f0"))
+    d = lf.add_or((), placeholder=True, readonly=False, name=Term("d0"))
+    lf.add_disjunct(d, 0)
+    lf.add_evidence(Term("e0"), d, True, keep_name=True)
+    try:
+        LogicDAG.create_from(lf)
+        return True
+    except AssertionError:
+        return False
+
+
+def gen_program(rng, max_atoms, det_facts=False):
     """Propositional ProbLog text: facts, ADs (with and without bodies), positive cycles,
     stratified negation, queries and evidence."""
     nf = rng.randint(1, max(1, min(5, max_atoms - 2)))
@@ -273,6 +294,8 @@ def gen_program(rng, max_atoms):
                     else:
                         body.append(rng.choice(facts))
             lines.append("%s :- %s." % (d, ", ".join(body)))
+        if det_facts and rng.random() < 0.15:
+            lines.append("%s." % d)      # deterministically true: the ground node gets a TRUE child
     pool = derived + facts
     for q in rng.sample(pool, min(len(pool), rng.randint(1, 4))):
         lines.append("query(%s)." % q)
@@ -630,6 +653,15 @@ def run(ctx):
 
     # ------------------------------------------------------------ inputs
     max_ids = ctx.n(11, 13)
+    load_problog()
+    tc = probe_true_child()
+    ctx.cov["true_child_shortcut_in_evidence_pass"] = tc
+    listed = any(k.get("property") == "C09" and k.get("class") == TRUE_CHILD_CLASS for k in ctx.known)
+    # programs with deterministic facts on cyclic atoms make the pinned _break_cycles raise (finding, see notes/C09.md);
+    # they are generated once the finding is listed in known_findings.json or the fix is applied
+    det_stream = tc or listed
+    if not det_stream:
+        ctx.notes.append("stream with deterministic facts disabled: class %s not in known_findings.json and fix not applied" % TRUE_CHILD_CLASS)
     cases = []
     if ctx.replay:
         r = ctx.replay.get("replay", ctx.replay)
@@ -642,12 +674,18 @@ def run(ctx):
             import json
             with open(os.path.join(vf.CORPUS, "C09", f)) as fh:
                 r = json.load(fh)
+            if r.get("requires_class") and not det_stream:
+                ctx.count("corpus case held back until known_findings lists " + r["requires_class"])
+                continue
             cases.append((r["kind"], r["program"] if r["kind"] == "text" else r["ops"], 16))
         ntext = ctx.n(120, 4000)
         nbuild = ctx.n(150, 5000)
         ndense = ctx.n(80, 3000)
         for _ in range(ntext):
             cases.append(("text", gen_program(ctx.rng, ctx.rng.choice([5, 7, 9, max_ids - 1])), max_ids))
+        if det_stream:
+            for _ in range(ctx.n(60, 1500)):
+                cases.append(("text", gen_program(ctx.rng, ctx.rng.choice([5, 7, 9]), det_facts=True), max_ids))
         for _ in range(nbuild):
             cases.append(("builder", gen_builder_ops(ctx.rng, ctx.rng.choice([4, 6, 8, max_ids - 2])), max_ids))
         for _ in range(ndense):
@@ -665,6 +703,7 @@ def run(ctx):
         exe = None
 
     usable = []
+    err_cases = []
     for res in results:
         st = res["status"]
         ctx.count("status:" + st)
@@ -672,9 +711,16 @@ def run(ctx):
             ctx.violation("%s [%s input]" % (what, res["kind"]), replay_text(res), klass=klass)
         if st.startswith("break_raises"):
             exc = st.split(":")[1]
-            klass = "break-cycles-raises-%s%s" % (exc, "-empty-disjunction" if res.get("empty_disj") else "")
-            ctx.violation("LogicDAG.create_from raised %s on a ground program%s" % (exc, " with an empty disjunction" if res.get("empty_disj") else ""),
-                          replay_text(res), klass=klass)
+            true_child = any(nd[0] != "atom" and 0 in nd[1] for nd in res["F"])
+            if exc == "AssertionError" and true_child and res["evidence_keys"] and not res.get("empty_disj") and not tc:
+                klass = TRUE_CHILD_CLASS
+                what = ("LogicDAG.create_from raises AssertionError (get_node(0) from _break_cycles) on a ground program with evidence "
+                        "and a node that has a TRUE child (deterministic fact on a cyclic atom)")
+            else:
+                klass = "break-cycles-raises-%s%s" % (exc, "-empty-disjunction" if res.get("empty_disj") else "")
+                what = "LogicDAG.create_from raised %s on a ground program%s" % (exc, " with an empty disjunction" if res.get("empty_disj") else "")
+            ctx.violation(what, replay_text(res), klass=klass)
+            err_cases.append(res)
         if st != "ok" or "D" not in res or "clauses" not in res:
             continue
         usable.append(res)
@@ -698,17 +744,29 @@ def run(ctx):
         if res.get("undetermined"):
             ctx.count("clark_uniqueness_undetermined_by_judge", res["undetermined"])
     ctx.cov["usable_cases"] = len(usable)
-    if exe is None or not usable:
+    if exe is None or not (usable or err_cases):
         if not usable and not ctx.replay:
             ctx.broken.append("harness:no usable case")
         return
 
     # 1. model of break_cycles: structural equality with the implementation's DAG
-    lines = []
-    for res in usable:
+    def break_line(res, tcflag, um):
         g, e = res["ainfo"]
-        lines.append("BREAK 1 %s %s %s %s" % (orc.enc_graph(res["F"]), orc.enc_ainfo(g, e),
-                                               orc.enc_keys(res["labeled_keys"]), orc.enc_keys(res["evidence_keys"])))
+        return "BREAK %d %d %s %s %s %s" % (1 if tcflag else 0, um, orc.enc_graph(res["F"]), orc.enc_ainfo(g, e),
+                                            orc.enc_keys(res["labeled_keys"]), orc.enc_keys(res["evidence_keys"]))
+
+    # 0. where the implementation raised, the model (as the code is) must fail too
+    if err_cases:
+        outm = ctx.oracle(exe, [break_line(r, tc, 1) for r in err_cases])
+        outf = ctx.oracle(exe, [break_line(r, True, 1) for r in err_cases])
+        ctx.cov["impl_raises_and_model_fails"] = sum(1 for o in outm if o == "ERR")
+        ctx.cov["of_those_repaired_by_true_child_shortcut"] = sum(1 for o in outf if o.startswith("OK"))
+        for r, o in zip(err_cases, outm):
+            if o != "ERR" and len([b for b in ctx.broken if b.startswith("correspondence:break_cycles raises")]) < 3:
+                ctx.broken.append("correspondence:break_cycles raises but the model returns a DAG on %s" % (str(replay_text(r))[:500],))
+    if not usable:
+        return
+    lines = [break_line(res, tc, 1) for res in usable]
     out = ctx.oracle(exe, lines)
     agree = 0
     for res, o in zip(usable, out):
@@ -725,7 +783,7 @@ def run(ctx):
             ctx.notes.append("model: %s\nimpl: D=%r L=%r E=%r" % (o[:800], res["D"], res["D_labeled"], res["D_evidence"]))
     ctx.cov["break_model_equals_impl"] = agree
     # how often does the `translation` memo change the result? (same model with use_memo = false)
-    out0 = ctx.oracle(exe, ["BREAK 0" + l[len("BREAK 1"):] for l in lines])
+    out0 = ctx.oracle(exe, [break_line(res, tc, 0) for res in usable])
     ctx.cov["memo_changes_dag"] = sum(1 for x, y in zip(out, out0) if x != y)
 
     # 2. validate_break on the implementation's DAG
